@@ -12,7 +12,13 @@ EXTENDS MosClassify
 CONSTANTS Thorough, Export
 
 Kid(tag, childless, op, tgt, src, nest) ==
-  [tag |-> tag, childless |-> childless, op |-> op, tgt |-> tgt, src |-> src, nest |-> nest]
+  [tag |-> tag, childless |-> childless, op |-> op, tgt |-> tgt, src |-> src, nest |-> nest,
+   tgt2 |-> "absent", src2 |-> "absent"]
+(* a roElementAction that repeats its element_target / element_source: a   *)
+(* LATER block of another shape                                            *)
+Kid2(op, tgt, src, tgt2, src2) ==
+  [Kid("roElementAction", FALSE, op, tgt, src, None) EXCEPT !.tgt2 = tgt2, !.src2 = src2]
+Seconds == { <<"storyitem", "absent">>, <<"absent", "itemID">>, <<"storyitem", "itemID">>, <<"story", "storyID">> }
 Foreign(tag)       == Kid(tag, FALSE, None, "absent", "absent", None)
 Wrapper(tag, nest) == Kid(tag, FALSE, None, "absent", "absent", nest)
 
@@ -24,6 +30,8 @@ MsgKids ==
   { Kid(t, c, None, "absent", "absent", None) : t \in MsgTags \ {"roElementAction"}, c \in BOOLEAN }
   \cup { Kid("roElementAction", FALSE, op, tg, sr, None) : op \in Ops, tg \in Tgts, sr \in Srcs }
   \cup { Kid("roElementAction", TRUE, op, "absent", "absent", None) : op \in {"MOVE", None} }
+  \cup { Kid2(op, tg, sr, x[1], x[2]) : op \in Ops \ {"CLEAR", None}, tg \in {"story", "storyitem"},
+                                        sr \in {"storyID", "itemID", "story", "item"}, x \in Seconds }
 
 Pres  == IF Thorough
          THEN { <<>>, <<Foreign("mosID"), Foreign("ncsID"), Foreign("messageID")>>,
